@@ -502,8 +502,9 @@ Definition stake_overflow (s : state) (o : op) : bool :=
 (* evidence options: PenaltyBasePercentage >= 0, PenaltyBaseDecimals > 0 *)
 Definition verdict_params_ok (o : op) : bool :=
   match o with OEnd _ vs => forallb (fun e => (0 <=? e.1.2) && (0 <? e.2)) vs | _ => true end.
-Definition record_trig (s : state) (o : op) : bool :=
-  negb (gen_nonneg o) || stake_overflow s o || negb (verdict_params_ok o) || trig_postponed_blocked s o.
+(* environment assumptions of C11_validator_record (not triggers of any defect) *)
+Definition record_env_violated (s : state) (o : op) : bool :=
+  negb (gen_nonneg o) || stake_overflow s o || negb (verdict_params_ok o).
 
 Definition rec_ok (s : state) (v : addr) : Prop :=
   match vrecs s !! v with
@@ -588,7 +589,7 @@ Proof.
 Qed.
 
 Lemma apply_pending_fold blocked l : 
-  Forall (fun e => 0 <= e.2) l -> Forall (fun e => e.1 ∉ blocked) l ->
+  Forall (fun e => 0 <= e.2) l ->
   forall (recs : gmap addr vrec) (X : addr -> Z),
     (forall v, 0 <= X v) ->
     (forall v r, recs !! v = Some r -> vr_staking r = X v + entries_of l v /\ vr_power r = wrap64 (vr_staking r) /\ vr_staking r < 2 ^ 63) ->
@@ -597,19 +598,18 @@ Lemma apply_pending_fold blocked l :
               | None => recs !! v = None
               end.
 Proof.
-  induction 1 as [|[ev ep] l Hep Hl IH]; intros Hbl recs X HX Hrec v.
+  induction 1 as [|[ev ep] l Hep Hl IH]; intros recs X HX Hrec v.
   - simpl. destruct (recs !! v) as [r|] eqn:E; [|reflexivity]. destruct (Hrec v r E) as (S1 & S2 & S3). simpl in S1. repeat split; [lia|exact S2|exact S3].
-  - inversion Hbl as [|? ? Hb1 Hb2]; subst. simpl in Hep, Hb1. simpl foldr.
+  - simpl in Hep. simpl foldr.
     set (X' := fun v => X v + (if Pos.eqb ev v then ep else 0)).
     assert (forall v, 0 <= X' v) as HX' by (intros v0; unfold X'; specialize (HX v0); destruct (Pos.eqb ev v0); lia).
     assert (forall v r, recs !! v = Some r -> vr_staking r = X' v + entries_of l v /\ vr_power r = wrap64 (vr_staking r) /\ vr_staking r < 2 ^ 63) as Hrec'.
     { intros v0 r0 E0. destruct (Hrec v0 r0 E0) as (S1 & S2 & S3). simpl in S1. unfold X'. repeat split; [|exact S2|exact S3].
       destruct (Pos.eqb ev v0); lia. }
-    pose proof (IH Hb2 recs X' HX' Hrec') as Hin. set (inner := foldr (apply_pending blocked) recs l) in *.
+    pose proof (IH recs X' HX' Hrec') as Hin. set (inner := foldr (apply_pending blocked) recs l) in *.
     unfold apply_pending. simpl.
     destruct (inner !! ev) as [r0|] eqn:E0.
-    + rewrite bool_decide_eq_false_2 by exact Hb1.
-      pose proof (Hin ev) as Hev. rewrite E0 in Hev. destruct Hev as (T1 & T2 & T3). unfold X' in T1. rewrite Pos.eqb_refl in T1.
+    + pose proof (Hin ev) as Hev. rewrite E0 in Hev. destruct Hev as (T1 & T2 & T3). unfold X' in T1. rewrite Pos.eqb_refl in T1.
       destruct (vr_staking r0 - ep <? 0) eqn:En; [specialize (HX ev); lia|].
       destruct (decide (ev = v)) as [->|Hne].
       * rewrite lookup_insert. simpl. specialize (HX v). repeat split; lia.
@@ -620,15 +620,10 @@ Proof.
       destruct Hin as (U1 & U2 & U3). repeat split; [lia|exact U2|exact U3].
 Qed.
 
-Lemma rec_inv_begin s blocked : trig_postponed_blocked s (OBegin blocked) = false -> rec_inv s -> rec_inv (do_begin s blocked).
+Lemma rec_inv_begin s blocked : rec_inv s -> rec_inv (do_begin s blocked).
 Proof.
-  intros Ht (H1 & H2 & H3). simpl in Ht.
-  assert (Forall (fun e => e.1 ∉ blocked) (pend s)) as Hbl.
-  { apply Forall_forall. intros e He Hin.
-    assert (existsb (fun e => bool_decide (e.1 ∈ blocked)) (pend s) = true) as Hx.
-    { apply existsb_exists. exists e. split; [apply elem_of_list_In; exact He|apply bool_decide_eq_true_2; exact Hin]. }
-    rewrite Hx in Ht. discriminate. }
-  pose proof (apply_pending_fold blocked (pend s) H2 Hbl (vrecs s) (fun v => zget (vtot s) v) H1) as Hf.
+  intros (H1 & H2 & H3).
+  pose proof (apply_pending_fold blocked (pend s) H2 (vrecs s) (fun v => zget (vtot s) v) H1) as Hf.
   assert (forall v r, vrecs s !! v = Some r -> vr_staking r = zget (vtot s) v + entries_of (pend s) v /\ vr_power r = wrap64 (vr_staking r) /\ vr_staking r < 2 ^ 63) as Hrec.
   { intros v r E. specialize (H3 v). unfold rec_ok in H3. rewrite E in H3. exact H3. }
   specialize (Hf Hrec).
@@ -692,10 +687,10 @@ Proof.
   apply andb_true_iff in Hp as [P1 P2]. apply IH; [exact P2|]. apply rec_inv_verdict; assumption.
 Qed.
 
-Lemma rec_inv_step s o : record_trig s o = false -> rec_inv s -> rec_inv (fst (step s o)).
+Lemma rec_inv_step s o : record_env_violated s o = false -> rec_inv s -> rec_inv (fst (step s o)).
 Proof.
-  unfold record_trig. intros Ht Hs.
-  apply orb_false_iff in Ht as [Ht T4]. apply orb_false_iff in Ht as [Ht T3]. apply orb_false_iff in Ht as [T1 T2].
+  unfold record_env_violated. intros Ht Hs.
+  apply orb_false_iff in Ht as [Ht T3]. apply orb_false_iff in Ht as [T1 T2].
   apply negb_false_iff in T1. apply negb_false_iff in T3.
   destruct o; simpl.
   - apply rec_inv_stake; assumption.
@@ -714,17 +709,17 @@ Proof.
   - eapply rec_inv_frame; [..|exact Hs]; reflexivity.
 Qed.
 
-Lemma rec_inv_run os : forall s, guarded record_trig s os = true -> rec_inv s -> rec_inv (run s os).
+Lemma rec_inv_run os : forall s, guarded record_env_violated s os = true -> rec_inv s -> rec_inv (run s os).
 Proof.
   induction os as [|o os IH]; intros s Hg Hs; simpl in *; [exact Hs|].
   apply andb_true_iff in Hg as [H1 H2]. apply negb_true_iff in H1. apply IH; [exact H2|]. apply rec_inv_step; assumption.
 Qed.
 
-(* the validator's recorded stake equals the validator total plus the penalty decided in the last
+(* FULL since fix 0ce270f.  The validator's recorded stake equals the validator total plus the penalty decided in the last
    end-block and not yet applied to the record (applied by the next BeginBlock: then pend = []),
    its power equals its stake, and a validator without a record has no locked stake *)
 Theorem validator_record os :
-  guarded record_trig empty_state os = true ->
+  guarded record_env_violated empty_state os = true ->
   let s := run empty_state os in
   forall v,
     match vrecs s !! v with
